@@ -268,7 +268,7 @@ fn base_scenario(prop: &str, seed: u64) -> (Rng, Scenario) {
 /// C03 / C04 / C09 share the "any valid history" workload.
 fn gen_valid_history(prop: &str, seed: u64, tier: Tier) -> Scenario {
     let (mut rng, mut sc) = base_scenario(prop, seed);
-    let mut dom = Dom { custom_kernels: true, zero_channels: true, wild: true, ..Dom::default() };
+    let mut dom = Dom { custom_kernels: true, zero_channels: true, wild: true, zero_len: true, ..Dom::default() };
     // swarm: a few percent of the runs leave the usual size range (large chunk, many channels) or run long
     let big = rng.chance(0.03);
     let long = !big && rng.chance(0.04);
@@ -280,6 +280,17 @@ fn gen_valid_history(prop: &str, seed: u64, tier: Tier) -> Scenario {
         dom.max_chunk = 64;
         dom.max_sinc_len = 32;
         dom.max_channels = 2;
+    }
+    // marathon: thousands of cheap calls on one instance, one kind of op dominating (state that accumulates per
+    // call, per control call or per reset: counters, logs, rings, generation numbers)
+    let marathon = !big && !long && rng.chance(0.01);
+    if marathon {
+        dom.max_chunk = 16;
+        dom.max_sinc_len = 16;
+        dom.max_oversampling = 16;
+        dom.max_channels = 2;
+        dom.fft_cap = 40;
+        dom.wild = false;
     }
     sc.config = gen_config(&mut rng, &dom);
     if big && rng.chance(0.5) {
@@ -327,6 +338,31 @@ fn gen_valid_history(prop: &str, seed: u64, tier: Tier) -> Scenario {
         }
         sc.ops = ops;
         sc.profile = "huge-frame-counts".into();
+        return sc;
+    }
+    if marathon {
+        let n = rng.log_usize(1100, if tier == Tier::Quick { 70_000 } else { 300_000 });
+        let c = call_cost(&sc.config, sc.config.max_rel).max(call_cost(&sc.config, 1.0 / sc.config.max_rel)).max(1.0);
+        let n = n.min((3.0e8 / c) as usize).max(1100);
+        let mut m = OpMix::swarm(&mut rng, n);
+        m.p_slack = 0.0;
+        if rng.chance(0.8) {
+            m.w_reset = 0.0;
+        }
+        match rng.below(6) {
+            0 => {
+                m.w_ratio = 1.5;
+                m.p_ramp = 1.0;
+            }
+            1 => m.w_ratio = 2.0,
+            2 => m.w_partial = 1.0,
+            3 => m.w_chunk = 1.0,
+            4 => m.w_reset = 3.0,
+            _ => {}
+        }
+        let ops = if rng.chance(0.7) { gen_ops_uniform(&mut rng, &sc.config, &m) } else { gen_ops_ratematch(&mut rng, &sc.config, &m).0 };
+        sc.ops = ops;
+        sc.profile = "marathon".into();
         return sc;
     }
     let hi = if long { if tier == Tier::Quick { 1500 } else { 4000 } } else if tier == Tier::Quick { 60 } else { 200 };
